@@ -28,7 +28,11 @@ ASSUMPTIONS = ["reference self-tests passed", "|alpha| <= 1, |zeta| <= 0.6, occu
 
 
 def strategy(tier):
-    return S.program_case(["resize", "resize", "resize", "op", "bigop", "bigop"], max_steps=3)
+    from hypothesis import strategies as st
+
+    mix = ["resize", "resize", "resize", "op", "bigop", "bigop", "measure", "struct", "kraus"]
+    return st.one_of(S.program_case(mix, max_steps=4), S.program_case(mix, max_steps=4), S.program_case(mix, max_steps=4),
+                     S.lifecycle_case(tail_kinds=("resize", "bigop", "resize"), max_tail=3))
 
 
 def run_case(case):
